@@ -87,6 +87,7 @@ def run(prog, R):
         R.ob("C11.2-flags-set-by-scanner", "number(): empty_int iff the digit scanner after a radix prefix found no digit", not bad and n >= 10, num.at, f"{n} literal-returning paths; {bad[:3]}")
     import scanners
     scanners.check(prog, R, "C11.2-digit-scanners")
+    scanners.exponent_markers(prog, R, "C11.2-exponent-markers")
     # the two string scanners behave identically up to their quote character (decision table of one iteration)
     scanners.string_scanners_agree(prog, R, "C11.2-string-scanners-agree")
     scanners.string_flags_check(prog, R, "C11.2-string-flags")
@@ -205,6 +206,22 @@ def run(prog, R):
         R.ob("C11.3-gating", "analyze_source: translator runs iff !have_syntax_errors(); otherwise fresh context", not bad and n >= 2, an.at, f"{n} paths; {bad[:2]}")
     else:
         R.ob("ANCHOR", "analyze_source", False)
+    # an included file keeps its parse result (tree or lexer errors): parse_one_included hands the first component of
+    # parse_source_and_includes on unchanged, so that have_syntax_errors() sees the diagnostics of every file
+    po = [k for k in prog.bodies if k.startswith("oq3_source_file::source_file::parse_included_files::parse_one_included")]
+    if po:
+        pb = prog.body(po[0])
+        okk, det = True, []
+        for p in SymExec(prog, pb).paths():
+            if "__diverged__" in p.env:
+                continue
+            for nm, args, bb in p.calls:
+                if nm.endswith("SourceFile::new") and any(c[0].endswith("parse_source_and_includes") for c in p.calls):
+                    a1 = deep_strip(args[1])
+                    good = isinstance(a1, tuple) and a1[0] == "field" and a1[2] == 0 and isinstance(a1[1], tuple) and a1[1][0] == "call" and a1[1][1].endswith("parse_source_and_includes")
+                    okk = okk and good
+                    det.append(show(a1)[:70])
+        R.ob("C11.3-gating", "an included file keeps its parse result unchanged", okk and bool(det), pb.at, f"SourceFile::new(path, {sorted(set(det))}, ..)")
     hs = prog.body("oq3_source_file::source_file::SourceTrait::have_syntax_errors")
     if hs:
         cone = prog.cone([hs.npath])
